@@ -94,11 +94,11 @@ fn main() {
             // fixed base inputs are derived from the seed the failing run used
             std::env::set_var("VERIF_SEED", sd.to_string());
         }
-        if (def.case)(&rp.sub).is_none() {
+        if props::lookup_case(&prop, &rp.sub).is_none() {
             engine::emit(&format!("unknown sub-check {} for {}", rp.sub, prop));
             std::process::exit(2);
         }
-        if let Some(s) = engine::guard(|| (def.render)(&rp.sub, &rp.choices)).ok().flatten() {
+        if let Some(s) = engine::guard(|| (def.render)(rp.sub.strip_suffix("-fresh-thread").unwrap_or(&rp.sub), &rp.choices)).ok().flatten() {
             engine::emit(&format!("  case: {}", s));
         }
         let stack_kb = (engine::journal::WORKER_STACK / 1024) as u64;
@@ -181,7 +181,7 @@ fn main() {
     engine::journal::start_watchdog();
     let mut run = Run::new(&prop, def.level, tier, seed);
     (def.run)(&mut run);
-    let code = run.finish(&|s, c| (def.render)(s, c));
+    let code = run.finish(&|s, c| (def.render)(s.strip_suffix("-fresh-thread").unwrap_or(s), c));
     engine::child::cleanup_scratch();
     std::process::exit(code);
 }
